@@ -1,11 +1,12 @@
 #!/usr/bin/env python3
 """import_seeds.py: copy the confirmed seeded changes from the scratch worktrees into /verif/seeded/<id>/ and record
 what was run. Detection results are (re)computed by tools/eval_seeds.py."""
-import json, os, shutil, glob, re
+import json, os, shutil, glob, re, sys
+ROUND = int(sys.argv[1]) if len(sys.argv) > 1 else 1
 for d in sorted(glob.glob('/tmp/seed/C*/_seed/change*')):
     prop = d.split('/')[3]
     k = d[-1]
-    sid = f'{prop}-{k}'
+    sid = f'{prop}-{int(k) + 2 * (ROUND - 1)}'
     dst = f'/verif/seeded/{sid}'
     shutil.rmtree(dst, ignore_errors=True)
     os.makedirs(dst)
@@ -17,7 +18,7 @@ for d in sorted(glob.glob('/tmp/seed/C*/_seed/change*')):
         if line.startswith(f'RESULT {prop} change{k}:'):
             conf = line.strip()
     meta = dict(
-        id=sid, breaks_property=prop,
+        id=sid, breaks_property=prop, round=ROUND,
         summary=m.get('summary'), needs_to_manifest=m.get('what_it_needs_to_manifest'),
         files_touched=m.get('files_touched'), demo_command=m.get('demo_command'),
         produced_by='independent sub-agent given only the property record and a scratch git worktree of /repo (no access to /verif)',
